@@ -233,8 +233,89 @@ fn run_enum(part: &str, index: u64, cx: &mut Cx) -> Res {
     }
 }
 
+/// the bitmask AVP at the head of an AVP stream of 64 KiB and more, and through hide / reveal under two secrets of the same length
+fn check_word_in_context(kind: usize, w: u32, t: &mut Tape, cx: &mut Cx) -> Res {
+    cx.eval();
+    let attr = KIND_ATTR[kind];
+    let mut b = vec![0x01, 10, 0, 0];
+    b.extend_from_slice(&attr.to_be_bytes());
+    b.extend_from_slice(&w.to_be_bytes());
+    let render = || json!({"kind": KIND_NAMES[kind], "word": format!("{:#010x}", w)});
+    cx.stage(STAGE_ARMED);
+    if t.chance(20) {
+        let n = 65536 - 10 + t.below(12);
+        let mut stream = b.clone();
+        while stream.len() + 6 <= 10 + n {
+            stream.extend_from_slice(&[0x01, 0x06, 0, 0, 0, 39]);
+        }
+        let r = guard(|| {
+            let mut rd = SliceReader::from(&stream[..]);
+            let v = AVP::try_read_greedy(&mut rd);
+            let mut wr = VecWriter::new();
+            if let Some(Ok(a)) = v.first() {
+                a.write(&mut wr);
+            }
+            (v.len(), wr.data)
+        });
+        match r {
+            Caught::Ok((n_el, enc)) if n_el >= 2 && enc == b => cx.class("bitmask AVP at the head of a 64 KiB AVP stream"),
+            Caught::Ok((n_el, enc)) => {
+                return fail(
+                    format!("a bitmask AVP followed by {} more octets of AVPs: {} elements decoded, first re-encodes to {}", stream.len() - 10, n_el, hex(&enc)),
+                    render(),
+                )
+            }
+            _ => return fail("decoding a long AVP stream panicked", render()),
+        }
+    }
+    // hidden path: hide under s1, reveal, hide under s2 (same length, different content, same random vector), reveal
+    let sl = 1 + t.below(20);
+    let s1 = t.blob(sl);
+    let mut s2 = s1.clone();
+    let i = t.below(sl);
+    s2[i] ^= 1 + (t.byte() & 0x7e);
+    let rv = t.u32().to_be_bytes();
+    let r = guard(|| {
+        let mut rd = SliceReader::from(&b[..]);
+        let a = AVP::try_read_greedy(&mut rd).into_iter().next().and_then(|x| x.ok())?;
+        for s in [&s1, &s2, &s1] {
+            let h = a.clone().hide(s, &rv.into(), &[], &[0x11; 16]);
+            // the hidden value must be the reference ciphertext of the 4-octet word (a consistent but wrong cipher would
+            // survive the round trip, yet the peer could not read it)
+            if let AVP::Hidden(hv) = &h {
+                if hv.value != crate::spec::hide(attr, &w.to_be_bytes(), s, &rv, &[], &[0x11; 16]) {
+                    return Some(false);
+                }
+            }
+            let mut wr = VecWriter::new();
+            h.write(&mut wr);
+            let mut r2 = SliceReader::from(&wr.data[..]);
+            let back = AVP::try_read_greedy(&mut r2).into_iter().next().and_then(|x| x.ok())?;
+            match back.reveal(s, &rv.into()) {
+                Ok(x) if x == a => {}
+                _ => return Some(false),
+            }
+        }
+        Some(true)
+    });
+    cx.stage(STAGE_SETUP);
+    match r {
+        Caught::Ok(Some(true)) => {
+            cx.class("bitmask word through hide / reveal under two same-length secrets");
+            Ok(())
+        }
+        Caught::Ok(_) => fail("a bitmask AVP did not survive hide / encode / decode / reveal with all 32 bits", render()),
+        _ => fail("hide / reveal of a bitmask AVP panicked", render()),
+    }
+}
+
 fn run_tape(_part: &str, tape: &[u8], cx: &mut Cx) -> Res {
     let mut t = Tape::new(tape);
+    if t.chance(8) {
+        let kind = t.below(4);
+        let w = t.u32();
+        return check_word_in_context(kind, w, &mut t, cx);
+    }
     for kind in 0..4 {
         let w = match t.below(4) {
             0 => t.b_u32(),
